@@ -565,6 +565,11 @@ def finishUnion : List GS → GC
   | [c] => .s c
   | l => .union l
 
+/-- `c in other.constraints` for a member `c` and a multi `other` -/
+def atomIn (ds : List Atom) : GS → Bool
+  | .atom a => ds.contains a
+  | _ => false
+
 /-- `UnionConstraint.union` -/
 def unionUnion (ms : List GS) (other : GC) : PyM GC :=
   if other.isAny then .ok other
@@ -581,9 +586,7 @@ def unionUnion (ms : List GS) (other : GC) : PyM GC :=
       | .ok none => .ok .any
       | .ok (some st) => .ok (finishUnion ((st.theirs ++ st.merged).foldl addNew st.ours))
     | .s (.multi y ds) =>
-      if ms.any (fun c => match c with
-                  | .atom a => ds.contains a
-                  | _ => false) then .ok (.union ms)
+      if ms.any (atomIn ds) then .ok (.union ms)
       else .ok (finishUnion (ms ++ [.multi y ds]))
     | _ => .error .assertion
 
